@@ -362,7 +362,15 @@ pub fn ast_kinds(p: &Program, out: &mut std::collections::BTreeSet<String>) {
 pub fn coexec_equal(a: &Obs, b: &Obs, nvec: u64, seed: u64) -> Result<u64, String> {
     let ba = build(a).map_err(|e| format!("layout: {}", e))?;
     let bb = build(b).map_err(|e| format!("layout: {}", e))?;
+    let too_large = |b: &Built| b.asm.errors.iter().any(|e| e.kind == "image-too-large");
+    if too_large(&ba) || too_large(&bb) {
+        // larger than one bank: nothing to execute (a size limit of this harness, not a difference)
+        return Ok(0);
+    }
     if !ba.asm.errors.is_empty() || !bb.asm.errors.is_empty() {
+        if !ba.asm.errors.is_empty() && !bb.asm.errors.is_empty() {
+            return Ok(0); // neither assembles: C13's business, nothing to co-execute
+        }
         return Err("one of the two does not assemble".into());
     }
     let mut n = 0;
